@@ -230,7 +230,9 @@ Theorem C13_union_program_equivalence :
   run (union_impl_g C g) (u_build C ds) prog = spec_run (sem_union lcs) prog.
 Proof. exact union_sequence_is_sem_union. Qed.
 
-(* seek_danger in the shape of the current source (guard on the current document): over strong children that never
+(* seek_danger in the shape read from the current source (pinned flags UNION_DANGER_GUARDS_CURRENT_DOC and
+   UNION_DANGER_RESYNCS_MISSED: guard on the current document; in the hit branch the children that missed are
+   re-synchronised with seek(doc()) when they sit at or after the target): over strong children that never
    dangle (leaves, Exclude, every docset with the default seek_danger) the union meets the strong contract, so it
    can be a child of Intersection / Exclude / another level *)
 Theorem C13_union_contract :
@@ -264,8 +266,10 @@ Theorem C13_disjunction_program_equivalence :
   run (disj_impl C) (d_new C ds k) prog = spec_run (sem_disj k lcs) prog.
 Proof. exact disj_program_equivalence. Qed.
 
-(* NEW witness (faithful; replayed on the implementation by harness/src/bin/repro_c13_union_over_intersection.rs):
-   with the seek_danger of the current source, a BufferedUnionScorer with an Intersection child, driven through
+(* F134 (fixed in /repo; witness about the shape BEFORE the fix, `union_impl_g _ true`: guard, no resync; it was replayed
+   on the implementation by harness/src/bin/repro_c13_union_over_intersection.rs; UnionWitness.W_current_source shows
+   the shape read from the current source agreeing with the meaning on the same input):
+   a BufferedUnionScorer with an Intersection child, driven through
    seek_danger by an enclosing Intersection, delivers a document that is in no child of the union.
    `+a +((+x +y) z)`, a=[1;10000;10005] x=[1;9000;10005] y=[1;9000;50000;50001] z=[2;10000]: meaning [1;10000],
    observed [1;10000;10005].  This is why C13_union_contract asks for children that never dangle. *)
